@@ -121,7 +121,7 @@ def c03(tier):
         regions = [dict(lo=IO_BASE, hi=IO_BASE + 47, kind="io", delta=0), dict(lo=0x80, hi=0xFF, kind="ram", delta=0), dict(lo=FAR, hi=FAR + 15, kind="ram", delta=0)]
         tcases.append(dict(id=c["id"], vt=vt, fs={}, body=[], fuel=1, obs=[n for n in vt if n not in ("X", "Y")], regions=regions,
                            variants=[dict(name="ideal", code=code0, entry=e0), dict(name="repaired", code=code1, entry=e1)],
-                           tmp=0x80, prefix=True, sem=False, pair=True,
+                           tmp=0x80, prefix=True, cycdiff=-1, sem=False, pair=True,
                            inputs=[dict(inp=dict(inp0, **fl), ex={}, bound=320) for fl in flags], _items=c["_items"], _after=o["lines"]))
     avs, ares = asmcheck.run(recs, "c03")
     byid = {t["id"]: t for t in tcases}
